@@ -148,6 +148,7 @@ type ChainOut struct {
 	Exit      string   `json:"exit"`
 	Stderr    string   `json:"stderr"`
 	TimedOut  bool     `json:"timed_out"`
+	NilNoStopEarly []string `json:"nil_no_stop_early,omitempty"` // "v4 handler #2": streamed the moment it happened
 	Completed bool     `json:"completed"`
 }
 
@@ -196,11 +197,14 @@ func chainChild() {
 		os.Exit(3)
 	}
 	out := bufio.NewWriter(os.Stdout)
+	var emitMu sync.Mutex
 	emit := func(v any) {
 		b, _ := json.Marshal(v)
+		emitMu.Lock()
 		out.Write(b)
 		out.WriteByte('\n')
 		out.Flush()
+		emitMu.Unlock()
 	}
 	dir, _ := os.MkdirTemp(os.Getenv("VERIF_CHILD_DIR"), "chain")
 	defer os.RemoveAll(dir)
@@ -263,6 +267,7 @@ func chainChild() {
 				nnsMu.Lock()
 				nilNoStop = append(nilNoStop, i)
 				nnsMu.Unlock()
+				emit(map[string]any{"nil_no_stop_now": i, "proto": 4}) // at once: the next handler may crash on the nil response
 			}
 			return r, stop
 		}
@@ -278,6 +283,7 @@ func chainChild() {
 				nnsMu.Lock()
 				nilNoStop = append(nilNoStop, i)
 				nnsMu.Unlock()
+				emit(map[string]any{"nil_no_stop_now": i, "proto": 6})
 			}
 			return r, stop
 		}
@@ -555,6 +561,13 @@ func RunChain(job *ChainJob, scratch string, timeout time.Duration) *ChainOut {
 			out.SetupOK = true
 			json.Unmarshal(probe["n4"], &out.N4)
 			json.Unmarshal(probe["n6"], &out.N6)
+		case probe["nil_no_stop_now"] != nil:
+			var i, proto int
+			json.Unmarshal(probe["nil_no_stop_now"], &i)
+			json.Unmarshal(probe["proto"], &proto)
+			if len(out.NilNoStopEarly) < 20 {
+				out.NilNoStopEarly = append(out.NilNoStopEarly, fmt.Sprintf("DHCPv%d handler #%d", proto, i))
+			}
 		case probe["begin"] != nil:
 			json.Unmarshal(probe["begin"], &out.DiedAt)
 		case probe["completed"] != nil:
@@ -626,9 +639,19 @@ var _ = handler.Handler4(nil)
 func noteNilNoStop(ctx interface {
 	Viol(prop, sig, format string, a ...any)
 }, out *ChainOut, conf string) {
+	seen := map[string]bool{}
+	for _, w := range out.NilNoStopEarly {
+		if !seen[w] {
+			seen[w] = true
+			ctx.Viol("C13", "nil-without-stop", "%s: %s returned a nil response without signalling stop (the next handler receives nil)", conf, w)
+		}
+	}
+	if len(seen) > 0 {
+		return
+	}
 	for _, r := range out.Res {
 		for _, k := range r.NilNoStop {
-			ctx.Viol("C13", fmt.Sprintf("nil-without-stop:handler#%d", k), "%s: handler #%d returned a nil response without signalling stop", conf, k)
+			ctx.Viol("C13", "nil-without-stop", "%s: handler #%d returned a nil response without signalling stop", conf, k)
 		}
 	}
 }
